@@ -72,7 +72,7 @@ def step (_ : Unit) (w : List String) : Unit × String :=
     match pairForSet id (cs.map code?) with
     | none => ((), "unknown-pair")
     | some P => ((), setOut P (cs.map code?))
-  | ["parse", id, pgn, h] =>
+  | "parse" :: id :: pgn :: h :: _ =>    -- a trailing `cap=…` (caller's text buffer sizes) concerns the harness oracle only
     match pgn.toNat?, hexBytes? h with
     | some g, some bs =>
       match pairForParse id g bs with
